@@ -58,11 +58,38 @@ def eff_seg(remote, hdrl, large):
 
 
 # ------------------------------------------------------------------ C07
+class _SubTrace:
+    """The part of a source trace that belongs to one accepted put request."""
+
+    def __init__(self, tr, lo, hi):
+        self.kind, self.cfg, self.ops, self.obs = tr.kind, tr.cfg, tr.ops, tr.obs
+        self.all_steps = tr.steps
+        self.steps = [st for st in tr.steps if lo <= st.i < hi]
+
+    def emitted(self):
+        out = []
+        for st in self.steps:
+            if st.tag == 2 and st.ob["ret"] == 1:
+                g = codec.dec_got(st.ob["extra"])
+                out.append((st.i, g[0], g[1]))
+        return out
+
+
 def oracle_c07(tr: Trace):
-    """Applies to a source trace with one accepted put, only empty state-machine calls and drains."""
-    puts = [st for st in tr.steps if st.tag == 8 and st.ob["ret"] == 1]
-    if len(puts) != 1 or any(st.tag in (0, 3, 4, 5) for st in tr.steps):
+    """Applies to source traces made of accepted puts, empty state-machine calls and drains (one or more consecutive
+    transactions on the same handler): every accepted put must produce the full conformant stream."""
+    if any(st.tag in (0, 3, 4, 5) for st in tr.steps):
         return
+    puts = [st for st in tr.steps if st.tag == 8 and st.ob["ret"] == 1]
+    bounds = [st.i for st in puts] + [10 ** 9]
+    for n, st in enumerate(puts):
+        sub = _SubTrace(tr, bounds[n], bounds[n + 1])
+        sub.steps_all_before = [x for x in tr.steps if x.i < bounds[n]]
+        _oracle_c07_one(sub, st, complete_expected=n + 1 < len(puts))
+
+
+def _oracle_c07_one(tr, put_step, complete_expected=False):
+    puts = [put_step]
     put = dec_put(puts[0].op[1:])
     remote = next((r for r in tr.cfg["remotes"] if r["id"] == put["dst"]), None)
     if remote is None:
@@ -97,7 +124,9 @@ def oracle_c07(tr: Trace):
         if len(em) != 1:
             raise Failure("C07 metadata-only request emitted more than the Metadata PDU")
         return
-    data = files_of(tr, puts[0].i).get(put["src"])
+    class _All:
+        steps = tr.all_steps
+    data = files_of(_All, puts[0].i).get(put["src"])
     if data is None:
         return
     size = len(data)
@@ -115,6 +144,9 @@ def oracle_c07(tr: Trace):
     if others:
         raise Failure(f"C07 unexpected PDU kinds in a nominal stream: {[p['kind'] for p in others]}")
     complete = len(eofs) > 0
+    if complete_expected and not complete:
+        raise Failure(f"C07 the transaction of the put at op {puts[0].i} never emitted its EOF although the handler went on to "
+                      f"accept the next put request (stream: {[p['kind'] for _, p, _ in em]})")
     exp = expected_tiles(data, 0, size, seg)
     got = [(p["offset"], p["data"]) for _, p, _ in fds]
     if complete and got != exp:
@@ -164,6 +196,47 @@ def nominal_source_case(cfg: Cfg, data, ncalls=None, tag="c07"):
         return ("source", w.src.ops, w.src.obs)
     finally:
         w.close()
+
+
+def reuse_source_case(cfgs_datas, tag="c07r"):
+    """Several consecutive transactions on ONE source handler: request-level mode/closure vary per transaction; each
+    earlier transaction is unacknowledged without closure so that it finishes by itself."""
+    first = cfgs_datas[0][0]
+    w = World(first, tag)
+    try:
+        for cfg, data in cfgs_datas:
+            w.cfg.req_mode, w.cfg.req_closure, w.cfg.metadata_only, w.cfg.msgs = cfg.req_mode, cfg.req_closure, cfg.metadata_only, cfg.msgs
+            start_transfer(w, data)
+            for _ in range(40):
+                w.src.sm(None)
+                while w.src.get() is not None:
+                    pass
+                if w.src.h.state.value == 0 or w.src.h.step.value in (7, 8):
+                    break
+        return ("source", w.src.ops, w.src.obs)
+    finally:
+        w.close()
+
+
+def c07_reuse_cases(tier, rng):
+    import copy
+    out = []
+    for _ in range(60 if tier == "quick" else 600):
+        base = Cfg(mode=1, closure=False, max_seg=rng.choice([1, 2, 4, 7]), max_packet=64, cktype=rng.choice([0, 2, 3, 15]),
+                   crc=rng.random() < 0.3)
+        seq = []
+        n = rng.choice([2, 2, 3])
+        for k in range(n):
+            c = copy.copy(base)
+            last = k == n - 1
+            c.req_mode = rng.choice([0, 1]) if last else 1
+            c.req_closure = rng.choice([True, False]) if last else False
+            c.metadata_only = rng.random() < 0.3
+            c.msgs = [0] if c.metadata_only else None
+            size = rng.choice([0, 0, 1, 5, 9])
+            seq.append((c, None if c.metadata_only else bytes(rng.getrandbits(8) for _ in range(size))))
+        out.append(seq)
+    return out
 
 
 def c07_cases(tier, rng):
